@@ -7,7 +7,7 @@
  3. legend: abasic_token_type_to_lsp_token_type is total and injective into 0..TOKEN_TYPES.len()
  4. nothing is filtered: every message is visited; both handlers analyse the text they were sent
 """
-from lib import (sfx, get_fn, callers_of, strip_expr, strip_refs, show, aggregates, expr_calls)
+from lib import (sfx, get_fn, callers_of, strip_expr, strip_refs, show, aggregates, expr_calls, expr_params)
 import panics
 import vetted
 
@@ -44,6 +44,7 @@ def run(ck, F, E):
     analysis_stored(ck, F, ml)
     converter_predicate(ck, F)
     token_length_rule(ck, F)
+    answers_sent(ck, F, ml)
 
 
 def converter_predicate(ck, F):
@@ -176,6 +177,45 @@ def analysis_stored(ck, F, ml):
                    "the analysis is inserted into the document table before the loop goes on",
                    "main_loop analyses a text without storing the analysis in the document table (on some path): semantic tokens "
                    "for that document keep coming from an older text", c.span)
+
+
+def answers_sent(ck, F, ml):
+    """"answers each with diagnostics for the latest text": every analysis in main_loop is followed, on every path that goes on,
+    by a send_notification whose parameters carry analyze_source_file(<that analysis>); and send_notification really hands the
+    notification it builds to the connection's sender."""
+    pd = ml.postdominators()
+    k = 0
+    for c in ml.calls_to("SourceFileAnalyzer::analyze"):
+        k += 1
+        ok = False
+        for x in ml.calls():
+            if "send_notification" not in x.callee or not (x.bb in pd.get(c.bb, set()) or ml.dominates(c.bb, x.bb)):
+                continue
+            for a in x.args:
+                e = ml.expr(a, depth=30)
+                az = [y for y in expr_calls(e) if y[1].endswith("analyze_source_file")]
+                if az and any(len(z) > 3 and z[3] is c for y in az for z in expr_calls(y[2][0])):
+                    if x.bb in pd.get(c.bb, set()):
+                        ok = True
+        ck.require(ok, "C20:ANSWER:publish-after-analysis#%d" % k, "stays alive",
+                   "the analysis is followed on every path by send_notification(.. analyze_source_file(&analysis) ..)",
+                   "main_loop analyses a text without publishing the diagnostics of that analysis (on some path): an open / change "
+                   "notification goes unanswered, or is answered with the diagnostics of another text", c.span)
+    n = 0
+    for p, b in sorted(F.bodies.items()):
+        if b.crate != "abasic_lsp" or not p.split("::")[-1].startswith("send_notification") and "::send_notification" not in p:
+            continue
+        if "{closure" in p:
+            continue
+        n += 1
+        bpd = b.postdominators().get(0, set()) | {0}
+        sends = [c for c in b.calls() if c.callee.split("::")[-1] in ("send", "send_timeout", "try_send") and c.bb in bpd and
+                 expr_params(b.expr(c.args[1], depth=30)) >= {1}]
+        ck.require(bool(sends), "C20:ANSWER:send_notification-sends", "stays alive",
+                   "send_notification passes the notification built from its parameters to Sender::send on every path",
+                   "%s no longer sends the notification it builds (on every path): diagnostics are computed but never reach the client" % p,
+                   b.span)
+    ck.floor("C20.send_notification bodies", n, 1)
 
 
 def loops_header(ml):
